@@ -29,11 +29,11 @@ func (mluc *MultiLocalisedUnicode) getString(language [2]byte, country [2]byte) 
 	return countries[country]
 }
 
-func (mluc *MultiLocalisedUnicode) getStringForLanguage(language [2]byte) string {
+func (mluc *MultiLocalisedUnicode) getStringForLanguage(language [2]byte) (text string, found bool) {
 	for _, s := range mluc.entriesByLanguageCountry[language] {
-		return s
+		return s, true
 	}
-	return ""
+	return "", false
 }
 
 func (mluc *MultiLocalisedUnicode) setString(language [2]byte, country [2]byte, text string) {
